@@ -1217,6 +1217,28 @@ def items_names(tier):
                        'tags': tags + shape_tags(shape) + (['matrix-array-entry'] if arrays else []),
                        'g': {'$grader': cls, 'kw': kw}, 'gt': None, 'honest': honest, 'cheat': cheat, 'slot': None,
                        'hgrade': 1, 'collide': collide, 'notes': ['grid/names']}
+    # words that are number literals to Python's float() but NAMES to the formula grammar: the only defined spelling of
+    # infinity is the constant 'infty' (added after a seeded change gave plain numbers a float() fast path)
+    for sign in ('', '-'):
+        for word in ('inf', 'Inf', 'INF', 'infinity', 'Infinity', 'INFINITY', 'iNf', 'infty_', 'Infty', 'INFTY', 'in f'):
+            for cls in ('FormulaGrader', 'NumericalGrader', 'SumGrader'):
+                cheat_word = sign + word
+                if cls == 'SumGrader':
+                    kw = {'answers': {'lower': ('-infty' if sign else '0'), 'upper': ('0' if sign else 'infty'),
+                                      'summand': '0.5^n' if not sign else '0.5^(-n)', 'summation_variable': 'n'},
+                          'infty_val': 40}
+                    honest = [kw['answers']['lower'], kw['answers']['upper'], kw['answers']['summand'], 'n']
+                    cheat = list(honest)
+                    cheat[0 if sign else 1] = cheat_word
+                else:
+                    kw = {'answers': sign + 'infty', 'allow_inf': True}
+                    if cls == 'FormulaGrader':
+                        kw['variables'] = ['x']
+                    honest, cheat = sign + 'infty', cheat_word
+                yield {'clause': 'undefined', 'seed': 5, 'offender': word.replace(' ', ''), 'shape': 'direct',
+                       'tags': ['case-collision' if word.lower() == 'infty' else 'prefix-collision', 'python-float-word'],
+                       'g': {'$grader': cls, 'kw': kw}, 'gt': None, 'honest': honest, 'cheat': cheat, 'slot': None,
+                       'hgrade': 1, 'collide': 'infty', 'notes': ['grid/names', 'grid/python-float-words']}
 
 
 # ----------------------------------------------------------------------------------------------------
